@@ -411,7 +411,7 @@ func summariseRace(rep string) (site string, short string) {
 	return
 }
 
-var c13BlockMs = 2000
+var c13BlockMs = 5000
 
 var c13CanaryDone bool
 
